@@ -165,7 +165,7 @@ type stepShape struct {
 	noFree   bool     // keep the preset also in the thorough tier (harnesses whose oracle assumes the preset)
 	symIDs   bool     // participant, entity and component-type ids start from arbitrary (symbolic) counters per session
 	rejoin   bool     // a0 was a member, had a switch refused and/or left for a session of its own, and joined again
-	prior    bool     // a1 comes from a session of its own where it held an entity with a component-less action and asset
+	prior    bool     // a0 and a1 each come from a session of their own where they used the operations on an entity of theirs
 	flags    []string // feature flags of the world
 	par      *stepParams
 }
@@ -216,6 +216,28 @@ func newStepWorld(sh stepShape) *stepWorld {
 	}
 	s.a0, s.a1, s.a2, s.b0, s.n0 = w.newConn(), w.newConn(), w.newConn(), w.newConn(), w.newConn()
 	d := w.newConn()
+	if sh.prior {
+		// a0's connection has a history too: a session of its own in which it used every kind of operation on an
+		// entity of its own (whatever a connection, a module object or a handler caches per connection was
+		// filled there); leaving it ends that session, and the session created next may take over its id
+		s.a0.mustJoin("")
+		pe := s.a0.addEntity(true, &hagallpb.Pose{})
+		s.a0.do(&hagallpb.EntityUpdatePose{Type: hagallpb.MsgType_MSG_TYPE_ENTITY_UPDATE_POSE, Timestamp: vts(), EntityId: pe, Pose: &hagallpb.Pose{Px: -3}})
+		if sh.mods&vModVikja != 0 {
+			s.a0.do(&vikjapb.EntityActionRequest{Type: vikjapb.MsgType_MSG_TYPE_VIKJA_ENTITY_ACTION_REQUEST, Timestamp: vts(), RequestId: 23,
+				EntityAction: &vikjapb.EntityAction{EntityId: pe, Name: "prior", Timestamp: vts()}})
+		}
+		if sh.mods&vModOdal != 0 {
+			s.a0.do(&odalpb.AssetInstanceAddRequest{Type: odalpb.MsgType_MSG_TYPE_ODAL_ASSET_INSTANCE_ADD_REQUEST, Timestamp: vts(), RequestId: 24, EntityId: pe, AssetId: "prior-asset"})
+		}
+		pm := s.a0.expectOne(&hagallpb.EntityComponentTypeAddRequest{Type: hagallpb.MsgType_MSG_TYPE_ENTITY_COMPONENT_TYPE_ADD_REQUEST, Timestamp: vts(), RequestId: 25, EntityComponentTypeName: "prior-type"},
+			hagallpb.MsgType_MSG_TYPE_ENTITY_COMPONENT_TYPE_ADD_RESPONSE, "setup.prior.type_add")
+		var ptr hagallpb.EntityComponentTypeAddResponse
+		pm.DataTo(&ptr)
+		s.a0.do(&hagallpb.EntityComponentAddRequest{Type: hagallpb.MsgType_MSG_TYPE_ENTITY_COMPONENT_ADD_REQUEST, Timestamp: vts(), RequestId: 26, EntityComponentTypeId: ptr.EntityComponentTypeId, EntityId: pe, Data: []byte{9}})
+		s.a0.do(&hagallpb.EntityComponentTypeSubscribeRequest{Type: hagallpb.MsgType_MSG_TYPE_ENTITY_COMPONENT_TYPE_SUBSCRIBE_REQUEST, Timestamp: vts(), RequestId: 27, EntityComponentTypeId: ptr.EntityComponentTypeId})
+		s.a0.drain()
+	}
 	s.a0.mustJoin("")
 	if sh.symIDs {
 		symbolicCounters(s.a0)
